@@ -8,6 +8,7 @@ import (
 	"errors"
 	"fmt"
 	"io"
+	"math"
 	"net/http"
 	"os"
 	"path/filepath"
@@ -22,14 +23,14 @@ import (
 )
 
 type Case struct {
-	ID      string `json:"id"`
-	DoErr   bool   `json:"do_err"`
-	Status  int    `json:"status"`
-	Body    string `json:"body"`
-	FaultAt int    `json:"fault_at"` // -1: none; k: Read fails after k bytes were delivered
-	Chunk   int    `json:"chunk"`    // max bytes per Read
-	CloseErr bool  `json:"close_err"`
-	Kind    string `json:"kind"`
+	ID       string `json:"id"`
+	DoErr    bool   `json:"do_err"`
+	Status   int    `json:"status"`
+	Body     string `json:"body"`
+	FaultAt  int    `json:"fault_at"` // -1: none; k: Read fails after k bytes were delivered
+	Chunk    int    `json:"chunk"`    // max bytes per Read
+	CloseErr bool   `json:"close_err"`
+	Kind     string `json:"kind"`
 }
 
 type target struct {
@@ -103,17 +104,17 @@ func (d *doer) Do(r *http.Request) (*http.Response, error) {
 }
 
 type Obs struct {
-	Outcome    string   `json:"outcome"` // Transport | HTTPError | GqlErrors | Nil | Other | Panic
-	Status     int      `json:"status,omitempty"`
-	FromBody   bool     `json:"from_body,omitempty"`
-	NErrors    int      `json:"n_errors,omitempty"`
-	Messages   []string `json:"messages,omitempty"`
-	ErrText    string   `json:"err_text,omitempty"`
-	Closes     int      `json:"closes"`
-	ReadAfterClose bool `json:"read_after_close,omitempty"`
-	Data       target   `json:"data"`
-	Ext        map[string]interface{} `json:"ext,omitempty"`
-	Panic      string   `json:"panic,omitempty"`
+	Outcome        string                 `json:"outcome"` // Transport | HTTPError | GqlErrors | Nil | Other | Panic
+	Status         int                    `json:"status,omitempty"`
+	FromBody       bool                   `json:"from_body,omitempty"`
+	NErrors        int                    `json:"n_errors,omitempty"`
+	Messages       []string               `json:"messages,omitempty"`
+	ErrText        string                 `json:"err_text,omitempty"`
+	Closes         int                    `json:"closes"`
+	ReadAfterClose bool                   `json:"read_after_close,omitempty"`
+	Data           target                 `json:"data"`
+	Ext            map[string]interface{} `json:"ext,omitempty"`
+	Panic          string                 `json:"panic,omitempty"`
 }
 
 func Observe(c *Case, post bool) (o *Obs) {
@@ -461,9 +462,57 @@ func CoqCase(idx int, c *Case, o *Obs) (string, bool) {
 		idx, in, out, coqfmt.Nat(o.Closes), coqfmt.Bool(dataOK)), true
 }
 
+// ---- failing before sending: the request cannot be built ----
+type badMarshaler struct{}
+
+func (badMarshaler) MarshalJSON() ([]byte, error) { return nil, errors.New("verif: cannot marshal") }
+
+var preSendVars = []struct {
+	name string
+	v    interface{}
+}{
+	{"marshaler-error", badMarshaler{}},
+	{"nested-marshaler-error", map[string]interface{}{"a": []interface{}{1, badMarshaler{}}}},
+	{"channel", map[string]interface{}{"c": make(chan int)}},
+	{"func", map[string]interface{}{"f": func() {}}},
+	{"infinity", map[string]interface{}{"x": math.Inf(1)}},
+}
+
+// preSend: variables that do not marshal, through both clients: an error, no panic, no contact.
+func preSend(k int, post bool) (class, what string) {
+	d := &doer{c: &Case{Status: 200, Body: `{"data":{"f":"x","n":1}}`, FaultAt: -1, Chunk: 64}}
+	var err error
+	panicked := ""
+	func() {
+		defer func() {
+			if v := recover(); v != nil {
+				panicked = fmt.Sprint(v)
+			}
+		}()
+		var cl graphql.Client
+		if post {
+			cl = graphql.NewClient("http://h/graphql", d)
+		} else {
+			cl = graphql.NewClientUsingGet("http://h/graphql", d)
+		}
+		var data target
+		err = cl.MakeRequest(context.Background(), &graphql.Request{Query: "query Q { f n }", OpName: "Q", Variables: preSendVars[k].v}, &graphql.Response{Data: &data})
+	}()
+	m := map[bool]string{true: "POST", false: "GET"}[post]
+	switch {
+	case panicked != "":
+		return "C12/pre-send-panic", fmt.Sprintf("%s client, variables that do not marshal (%s): MakeRequest panicked: %s", m, preSendVars[k].name, panicked)
+	case err == nil:
+		return "C12/pre-send-no-error", fmt.Sprintf("%s client, variables that do not marshal (%s): MakeRequest returned nil", m, preSendVars[k].name)
+	case d.body != nil:
+		return "C12/pre-send-contacted-server", fmt.Sprintf("%s client, variables that do not marshal (%s): the server was contacted", m, preSendVars[k].name)
+	}
+	return "", ""
+}
+
 func Run(tier string, seed int64, outDir string, replay string) (*core.Result, error) {
 	res := core.NewResult("C12", tier, seed)
-	res.Rule = "fixed corpus (every fault position k over one envelope for status 200 and 500; every status code 100-599) + random (status, body, fault plan): bodies from a grammar (valid {data,errors,extensions} combinations incl. wrong shapes, null, case-variant keys, unknown keys; wrong top-level values; trailing data; leading space; truncations; non-JSON; empty), Do failure, Body.Read failing after k bytes for random k with chunked reads, Close failing; each run through the real POST and GET clients against an instrumented body; non-trivial = all; distinct by (do_err,status,body,fault,chunk)"
+	res.Rule = "fixed corpus (every fault position k over one envelope for status 200 and 500; every status code 100-599) + random (status, body, fault plan): bodies from a grammar (valid {data,errors,extensions} combinations incl. wrong shapes, null, case-variant keys, unknown keys; wrong top-level values; trailing data; leading space; truncations; non-JSON; empty), Do failure, Body.Read failing after k bytes for random k with chunked reads, Close failing; each run through the real POST and GET clients against an instrumented body; plus requests that cannot be built (variables that do not marshal: failing MarshalJSON at top level and nested, channel, func, +Inf) through both clients: an error, no panic, server not contacted; non-trivial = all; distinct by (do_err,status,body,fault,chunk)"
 	if replay != "" {
 		data, err := os.ReadFile(replay)
 		if err != nil {
@@ -476,6 +525,15 @@ func Run(tier string, seed int64, outDir string, replay string) (*core.Result, e
 			return nil, err
 		}
 		c := &wrap.Replay
+		if c.Kind == "pre-send" {
+			for _, post := range []bool{true, false} {
+				if cls, what := preSend(c.Status, post); cls != "" {
+					res.Fail(core.Failure{Case: c.ID, Class: cls, What: what, Replay: c})
+				}
+			}
+			res.Count(c.ID, true)
+			return res, nil
+		}
 		for _, post := range []bool{true, false} {
 			o := Observe(c, post)
 			ob, _ := json.Marshal(o)
@@ -523,6 +581,15 @@ func Run(tier string, seed int64, outDir string, replay string) (*core.Result, e
 		if t, ok := CoqCase(i, c, o); ok {
 			caseIndex[fmt.Sprint(i)] = c
 			coqCases = append(coqCases, t)
+		}
+	}
+	for k := range preSendVars {
+		for _, post := range []bool{true, false} {
+			res.Count(fmt.Sprintf("pre-send/%d/%v", k, post), true)
+			res.Dist("pre-send")
+			if cls, what := preSend(k, post); cls != "" {
+				res.Fail(core.Failure{Case: "presend-" + preSendVars[k].name, Class: cls, What: what, Replay: &Case{ID: "presend-" + preSendVars[k].name, Kind: "pre-send", Status: k}})
+			}
 		}
 	}
 	shard := 1000
